@@ -256,6 +256,15 @@ def _bbox(draw, vals):
             k, m = 0, len(lo) - 1
     lat = sorted([la[i], la[j]])
     lon = sorted([lo[k], lo[m]])
+    # boxes reaching the limits of the coordinate system ("everything east of ...", the whole world)
+    if _p(draw, 15):
+        lon[1] = 180.0
+    if _p(draw, 10):
+        lon[0] = -180.0
+    if _p(draw, 8):
+        lat[1] = 90.0
+    if _p(draw, 8):
+        lat[0] = -90.0
     return [lat[0], lat[1], lon[0], lon[1]]
 
 
